@@ -28,6 +28,7 @@ use winter_air::{
 use winter_crypto::hashers::{Blake3_192, Blake3_256, Rp62_248, Rp64_256, Sha3_256};
 use winter_crypto::{DefaultRandomCoin, ElementHasher, Hasher};
 use winter_math::FieldElement;
+use winter_utils::{Deserializable, Serializable};
 use winterfell::matrix::ColMatrix;
 use winterfell::{
     AcceptableOptions, AuxRandElements, ConstraintCompositionCoefficients, DefaultConstraintEvaluator, DefaultTraceLde,
@@ -120,6 +121,8 @@ fn ext_of(d: u32) -> FieldExtension {
         _ => FieldExtension::Cubic,
     }
 }
+
+static GRID_POINTS: std::sync::atomic::AtomicU64 = std::sync::atomic::AtomicU64::new(0);
 
 const FOLDS: [usize; 4] = [2, 4, 8, 16];
 const REMS: [usize; 9] = [0, 1, 3, 7, 15, 31, 63, 127, 255];
@@ -232,6 +235,7 @@ fn check_conjectured<B: FA>(c: &CCase, obs: &mut Obs) -> CheckResult {
         Err(p) => return Err(pfail("conjectured/panic", p)),
         Ok(r) => r?,
     }
+    GRID_POINTS.fetch_add(255 * 33 * NCR as u64, std::sync::atomic::Ordering::Relaxed);
     for (i, l) in ["binding=field-size", "binding=queries", "grinding-counted", "binding=collision-resistance", "policy-checked"].iter().enumerate() {
         if seen[i] {
             obs.label(*l);
@@ -361,7 +365,7 @@ impl SubCheck for Monotone {
         "monotone".into()
     }
     fn cases(&self, tier: Tier) -> u64 {
-        tier.pick(4_000, 80_000)
+        tier.pick(4_000, 60_000)
     }
     fn watchdog_secs(&self) -> u64 {
         60
@@ -525,7 +529,7 @@ impl SubCheck for Policy {
         "policy/real-proofs".into()
     }
     fn cases(&self, tier: Tier) -> u64 {
-        tier.pick(3_000, 60_000)
+        tier.pick(3_000, 40_000)
     }
     fn watchdog_secs(&self) -> u64 {
         60
@@ -536,7 +540,7 @@ impl SubCheck for Policy {
     fn required_labels(&self, _t: Tier) -> Vec<String> {
         vec![
             "honest-proof-accepted".into(),
-            "wrong-field:InconsistentBaseField".into(),
+            "wrong-field:tried".into(),
             "conjectured>=80".into(),
             "binding=collision-resistance".into(),
             "f62".into(),
@@ -709,7 +713,9 @@ fn check_policy<B: FA, H: ElementHasher<BaseField = B> + Send + Sync>(c: &RCase,
         obs.nontrivial();
     }
 
-    // a proof whose claimed field is another field's
+    // a proof whose claimed field is not the computation's: (i) one of the two other fields of the
+    // library, (ii) modulus byte strings that are no field of the library at all (re-issued through
+    // the context's own deserializer, as an untrusted prover would send them)
     let others: Vec<&str> = ["f62", "f64", "f128"].into_iter().filter(|f| *f != B::NAME).collect();
     let claimed = others[c.other % 2];
     let ti = proof.trace_info().clone();
@@ -717,28 +723,55 @@ fn check_policy<B: FA, H: ElementHasher<BaseField = B> + Send + Sync>(c: &RCase,
         Ok(c) => c,
         Err(p) => return Err(pfail("constructor-refuses", p)),
     };
-    let mut forged = proof.clone();
-    forged.context = ctx;
-    let claimed_level = catch(|| forged.security_level::<H>(true)).map_err(|p| pfail("conjectured/panic", p))?;
-    let policies = vec![
-        AcceptableOptions::MinConjecturedSecurity(0),
-        AcceptableOptions::MinConjecturedSecurity(claimed_level),
-        AcceptableOptions::MinConjecturedSecurity(lc),
-        AcceptableOptions::MinProvenSecurity(0),
-        AcceptableOptions::OptionSet(vec![opts.clone()]),
-    ];
-    for acc in &policies {
-        obs.comparisons += 1;
-        match ver(forged.clone(), acc) {
-            Ok(Ok(())) => {
-                return Err(Fail::new(
-                    "wrong-field-accepted",
-                    format!("{c:?}: proof for {} whose context claims the modulus of {claimed} was accepted", B::NAME),
-                ))
+    let mut forged_contexts: Vec<(String, Context)> = vec![(format!("the modulus of {claimed}"), ctx)];
+    let own = B::FP.p.to_le_bytes()[..B::FP.elem_bytes].to_vec();
+    let mut plus2 = own.clone();
+    plus2[0] = plus2[0].wrapping_add(2);
+    let mut top = own.clone();
+    *top.last_mut().unwrap() ^= 0x40;
+    let mut longer = own.clone();
+    longer.push(1);
+    for (what, bytes) in [("own modulus + 2", plus2), ("own modulus with a high bit flipped", top), ("own modulus with an extra byte", longer), ("the one-byte modulus 3", vec![3u8]), ("own modulus truncated", own[..own.len() - 1].to_vec())] {
+        let mut raw = ti.to_bytes();
+        raw.push(bytes.len() as u8);
+        raw.extend_from_slice(&bytes);
+        raw.extend_from_slice(&opts.to_bytes());
+        match catch(|| Context::read_from_bytes(&raw)) {
+            Ok(Ok(ctx)) => {
+                ensure!(ctx.field_modulus_bytes() == &bytes[..] && ctx.options() == &opts, "harness/context-forgery", "context layout assumption broken");
+                forged_contexts.push((what.to_string(), ctx));
             },
-            Ok(Err(e)) => obs.label(format!("wrong-field:{}", err_name(&e))),
-            // a panic is not an acceptance (hostile-input panics are C06's subject)
-            Err(_) => obs.label("wrong-field:panic"),
+            Ok(Err(_)) => obs.label("wrong-field:context-refused-by-deserializer"),
+            Err(_) => obs.label("wrong-field:deserializer-panic"),
+        }
+    }
+    obs.label("wrong-field:tried");
+    for (what, ctx) in forged_contexts {
+        let mut forged = proof.clone();
+        forged.context = ctx;
+        let mut policies = vec![
+            AcceptableOptions::MinConjecturedSecurity(0),
+            AcceptableOptions::MinConjecturedSecurity(lc),
+            AcceptableOptions::MinProvenSecurity(0),
+            AcceptableOptions::OptionSet(vec![opts.clone()]),
+        ];
+        // the level the forged context claims (may itself be refused / panic for non-fields: then skipped)
+        if let Ok(claimed_level) = catch(|| forged.security_level::<H>(true)) {
+            policies.push(AcceptableOptions::MinConjecturedSecurity(claimed_level));
+        }
+        for acc in &policies {
+            obs.comparisons += 1;
+            match ver(forged.clone(), acc) {
+                Ok(Ok(())) => {
+                    return Err(Fail::new(
+                        "wrong-field-accepted",
+                        format!("{c:?}: proof for {} whose context claims {what} was accepted", B::NAME),
+                    ))
+                },
+                Ok(Err(e)) => obs.label(format!("wrong-field:{}", err_name(&e))),
+                // a panic is not an acceptance (hostile-input panics are C06's subject)
+                Err(_) => obs.label("wrong-field:panic"),
+            }
         }
     }
     Ok(())
@@ -799,13 +832,21 @@ pub fn run(run: &mut Run) {
             }
         }
     }
+    let rule = format!(
+        "one enumerated case = (field in {{f62,f64,f128}}, extension 1..3, blowup 2^1..2^7, trace length 2^3..2^32, FRI mode); inside each case the complete grid queries 1..255 x grinding 0..32 x collision resistance 96..128 is compared with the documented formula and bound (oracle_comparisons / conjectured_grid_points count the grid points); trace lengths / LDE sizes above u32::MAX must be refused by Context::new (documented) and are outside the claim; {}; the minimum-security policy (AcceptableOptions::validate) is checked on a sub-lattice at s in {{level, level+1, 0, u32::MAX}}; every case non-trivial; distinct by case",
+        tier.pick(
+            "FRI mode: the 36 folding x remainder pairs rotate along the (queries, grinding) grid, i.e. the space queries x blowup x grinding x extension x trace length x field x collision resistance is complete, the FRI dimension is only rotated",
+            "FRI mode: rotation along the grid plus each of the 36 folding x remainder pairs held fixed over the whole grid, i.e. the full product including FRI options is complete"
+        )
+    );
     run.enumerate(
         "conjectured/lattice",
-        "one enumerated case = (field in {f62,f64,f128}, extension 1..3, blowup 2^1..2^7, trace length 2^3..2^32, FRI option mode); inside each case the complete grid queries 1..255 x grinding 0..32 x collision resistance 96..128 is compared with the documented formula and bound (oracle_comparisons counts the grid points); trace lengths / LDE sizes above u32::MAX must be refused by Context::new (documented) and are outside the claim; FRI folding x remainder pairs rotate along the grid (mode 0) and, in the thorough tier, each of the 36 pairs is additionally held fixed over the whole grid; the minimum-security policy (AcceptableOptions::validate) is checked on a sub-lattice at s in {level, level+1, 0, u32::MAX}; every case non-trivial; distinct by case",
+        &rule,
         true,
         cases.into_iter(),
         |c: &CCase, obs: &mut Obs| with_field!(c.field.as_str(), B => check_conjectured::<B>(c, obs)),
     );
+    run.note("conjectured_grid_points", serde_json::json!(GRID_POINTS.load(std::sync::atomic::Ordering::Relaxed)));
     run.sub(&Monotone { full_cr: tier == Tier::Thorough });
     run.sub(&Policy);
 }
